@@ -59,10 +59,16 @@ PARTS = {
     ],
     "C02": [
         {"test": "TestVfC02aTimeCache",
-         "quick": {"checks": 8000, "shards": 4, "timeout": 300},
-         "thorough": {"checks": 400000, "shards": 16, "timeout": 1500}},
+         "quick": {"checks": 20000, "shards": 4, "timeout": 300},
+         "thorough": {"checks": 800000, "shards": 16, "timeout": 1500}},
+        {"test": "TestVfC02bPipeline",
+         "quick": {"checks": 3000, "shards": 4, "timeout": 600},
+         "thorough": {"checks": 200000, "shards": 16, "timeout": 2400}},
     ],
     "C20": [
+        {"test": "TestVfC20bNode",
+         "quick": {"checks": 3000, "shards": 4, "timeout": 600, "gomaxprocs": [16, 2, 16, 4]},
+         "thorough": {"checks": 200000, "shards": 16, "timeout": 2400, "gomaxprocs": [16, 2, 1, 4]}},
         {"test": "TestVfC20aSeqno",
          "quick": {"checks": 12000, "shards": 4, "timeout": 300, "gomaxprocs": [16, 2, 1, 4]},
          "thorough": {"checks": 600000, "shards": 16, "timeout": 1500, "gomaxprocs": [16, 2, 1, 4]}},
@@ -180,11 +186,24 @@ RULES = {
            "(a) message cache alone: rapid sequences of put / get / get-for-peer / gossip-ids / shift (<= 60 ops, gossip <= history <= 8) "
            "against a sliding-window model (retrievable for HistoryLength shifts, advertised for HistoryGossip, per-peer transmission "
            "counts); non-trivial = a query hits a message exactly at a window edge. (b) see part list. Distinct = distinct case JSON.",
-    "C02": "(a) seen cache alone, both strategies, public timecache API under the virtual clock: sequences of Add/Has/advance over 4 ids "
+    "C02": "(b) direct-driven floodsub / gossipsub node with seen TTL in {2 s, 30 s, 120 s} x strategy x message ID function (default, global "
+           "content hash, per-topic content hash) x 0-2 asynchronous default validators and an optional topic validator with virtual "
+           "delays, 1-4 workers, signed or (strict no-sign) unsigned messages; 2-14 events of 1-5 copies of one of three contents from "
+           "several peers at offsets 0-60 ms (in one RPC or separately), optionally with a local publish of the same content, separated by "
+           "generated quiet times around TTL and TTL + sweep. Oracle per event from the (a)-model window (must-duplicate / may / must-new): "
+           "each of two subscriptions gets the ID at most once, each validator runs at most once, exactly once where the ID must be new, "
+           "not at all where it must still be remembered. Non-trivial: copies overlap a running validation or a local publish collides. "
+           "(a) seen cache alone, both strategies, public timecache API under the virtual clock: sequences of Add/Has/advance over 4 ids "
            "with TTLs 1s..10min against the statement's two-sided bound (must be present before expiry, must be absent after expiry + "
            "one sweep interval, either answer in between with the model following the implementation); non-trivial = an operation "
            "falls after an expiry or between TTL and sweep. (b) see part list. Distinct = distinct case JSON.",
-    "C20": "(a) BasicSeqnoValidator on an instrumented metadata store: 1-8 goroutines each validating a generated list of (author, "
+    "C20": "(b) direct-driven gossipsub node with the validator as default validator (inline or asynchronous, optionally next to an accepting "
+           "asynchronous topic validator) on the instrumented store, StrictSign, 1-8 workers, seen TTL 2 s, scoring on; 1-8 bursts of 1-8 "
+           "signed messages (2 authors, sequence numbers 0-12 with repeats and decreasing runs, 0-12 byte encodings) arriving in one instant "
+           "from several peers, separated by quiet times up to beyond TTL + sweep. Oracle per burst: stored nonces strictly increasing, "
+           "accepted <=> delivered exactly once <=> forwarded, nothing at or below the highest accepted number is delivered or forwarded, the "
+           "highest fresh number is accepted, no invalid-delivery counter moves. Non-trivial: >= 2 workers validating a burst, or a replay "
+           "after the seen window expired. (a) BasicSeqnoValidator on an instrumented metadata store: 1-8 goroutines each validating a generated list of (author, "
            "sequence number incl. duplicates, decreasing runs, 0, 2^64-1, encodings of 0..12 bytes), optionally with the first store "
            "reads of all goroutines forced to overlap and with yields inside the store; oracle = per author the stored nonces are "
            "strictly increasing, equal the accepted values, no value accepted twice, the highest value is accepted, final nonce = "
